@@ -21,10 +21,19 @@ pub enum Number {
 impl Number {
     pub fn negate(&self) -> Option<Self> {
         use Number::*;
+
+        /// The text of `-x`, for the text of a number: a leading minus sign is removed, not doubled.
+        fn negated(x: &str) -> String {
+            match x.strip_prefix('-') {
+                Some(magnitude) => magnitude.to_owned(),
+                None => "-".to_owned() + x,
+            }
+        }
+
         Some(match self {
-            Integer(x) => Integer("-".to_owned() + x),
-            BigInt(x) => Integer("-".to_owned() + x),
-            Float(x) => Float("-".to_owned() + x),
+            Integer(x) => Integer(negated(x)),
+            BigInt(x) => Integer(negated(x)),
+            Float(x) => Float(negated(x)),
             Byte(_) => return None,
         })
     }
